@@ -149,7 +149,8 @@ def cases(ctx):
     good_s = cfg("CN=AS Sub v2", issuer="r")
     n0 = len(out)
     states = ["garbage", "hash-not-at-start", "hash-no-newline", "hash-only", "pkcs1-key", "sec1-key", "cert-of-other-key", "cert-only", "key-only", "empty", "binary-noise",
-              "two-certs", "csr-and-key", "hash-bad-base64", "crlf"]
+              "two-certs", "csr-and-key", "hash-bad-base64", "crlf",
+              "hash-last-no-newline", "hash-last", "hash-marker-only-last", "hash-between-blocks-no-newline-after", "hash-twice", "hash-marker-in-first-line-twice"]
     for st in states:
         for who in ("r", "s"):
             for fl in ([["m", "c"], ["c"], ["o"], ["a"], []] if not ctx.quick else [["m", "c"], ["c"], ["o"]]):
@@ -225,6 +226,6 @@ def run(ctx, replay=None):
            "samples": [rows[i] for i in range(0, len(rows), max(1, len(rows) // 4))][:4],
            "catalogue_cases": len(rows), "outcomes": kinds, "fuzz_inputs": sum(s["evaluations"] for s in fstats), "fuzz_panics": len(findings),
            "fuzz_corpus": fstats[0]["config_corpus"],
-           "explanation": "(b) slot x class catalogue over certificate and profile schemas, (c) 15 artifact states x 2 entities x flag sets, (d) seeded non-coverage-guided byte mutator"}
+           "explanation": "(b) slot x class catalogue over certificate and profile schemas, (c) 21 artifact states x 2 entities x flag sets, (d) seeded non-coverage-guided byte mutator"}
     return ctx.finish("exploration", cov, ["coverage-guided fuzzing is a different technique and is not used; the random driver is shallow by construction",
                                            "'skipped' = the run succeeded without producing an artifact for the entity under test"])
